@@ -6,9 +6,13 @@ from vlib import coq_value, coq_path, coq_opt, coq_bool, coq_hex
 import gen
 
 ID = "C19"
-THEOREMS = []
+THEOREMS = ["C19_union_sound", "C19_union_sound_any_fuel", "C19_union_exact_vs_json_refuted",
+            "C19_get_sound", "C19_get_sound_nonneg", "C19_kget_sound", "C19_get_negidx_optional_refuted",
+            "C19_superset_sound", "C19_superset_exact_any_refuted",
+            "C19_insert_sound", "C19_negidx_insert_refuted", "C19_insert_coerce_required_refuted",
+            "C19_insert_optional_hole_refuted", "C19_domains_nonvacuous"]
 IMPORTS = ("From Coq Require Import List ZArith String.\n"
-           "From VRL Require Import Base.Bytes Base.Value Base.Lit Model.ValueCrud Model.Kind Model.KindCrud Corr.C19.\n"
+           "From VRL Require Import Base.Bytes Base.Value Base.Lit Model.ValueCrud Model.Kind Model.KindCrud Model.KindDomains Corr.C19.\n"
            "Local Open Scope string_scope.")
 MANIFEST = {
     "level": "proof",
@@ -480,12 +484,87 @@ def nontrivial(c):
     return True
 
 
-def main(run, args):
+# ------------------------------------------------------------------------------------------------
+# known findings: the class of a case is computed by Corr/C19.v `finding_class` (the first side
+# condition of the proved domain that fails), never guessed here
+# ------------------------------------------------------------------------------------------------
+
+CLASS = {}      # json key of a case -> finding class number (0 = inside a proved domain)
+
+
+def case_key(c):
+    return json.dumps(c, sort_keys=True)
+
+
+def coq_map_n(terms, fn, tag, shard=400):
+    """Eval vm_compute (map fn terms) : list N, sharded over coqc processes."""
+    import concurrent.futures as cf
+    import os
+    import re
+    d = os.path.join(vlib.CACHE, "cases", ID)
+    os.makedirs(d, exist_ok=True)
+    files = []
+    for si, start in enumerate(range(0, len(terms), shard)):
+        path = os.path.join(d, "%s_%04d.v" % (tag, si))
+        with open(path, "w") as f:
+            f.write(IMPORTS + "\nImport ListNotations.\nLocal Open Scope Z_scope.\n")
+            f.write("Definition the_cases := [\n  %s\n].\n" % ";\n  ".join(terms[start:start + shard]))
+            f.write("Eval vm_compute in (map %s the_cases).\n" % fn)
+        files.append(path)
+    res = []
+    with cf.ThreadPoolExecutor(max_workers=vlib.NPROC) as ex:
+        for path, (rc, out) in zip(files, ex.map(lambda p: vlib._coqc(p, 900), files)):
+            m = re.search(r"=\s*\[(.*?)\]\s*:\s*list N", out, re.S)
+            if rc != 0 or not m:
+                raise RuntimeError("finding_class evaluation failed on %s: %s" % (path, out[-800:]))
+            res += [int(x) for x in re.findall(r"\d+", m.group(1))]
+    return res
+
+
+def classify(cases):
+    """fills CLASS for the given cases (one harness run + one Coq pass)"""
+    todo = [c for c in cases if case_key(c) not in CLASS]
+    if not todo:
+        return
+    outs = vlib.run_harness("kind", todo)
     import checklib
-    n = args.cases or (2500 if run.tier == "quick" else 40000)
-    return checklib.standard(run, ID, THEOREMS, IMPORTS, "kind", gen_cases, to_coq, n, nontrivial=nontrivial,
-                             replay=args.replay, known_matcher=known_matcher)
+    idx = [i for i, o in enumerate(outs) if not checklib.impl_failed(o)]
+    terms = [to_coq(todo[i], outs[i]) for i in idx]
+    cls = coq_map_n(terms, "finding_class", "classes")
+    assert len(cls) == len(idx), (len(cls), len(idx))
+    for i, k in zip(idx, cls):
+        CLASS[case_key(todo[i])] = k
+
+
+def has_negative_index(p):
+    return any("i" in s and int(s["i"]) < 0 for s in p)
 
 
 def known_matcher(entry, case, out):
-    return False
+    m = entry["match"]
+    if isinstance(out, dict) and "panic" in out:
+        # debug-build usize underflow in remove_inner's negative-index branch
+        return (m.get("panic") is not None and m["panic"] in out["panic"] and case["op"] == m.get("op")
+                and has_negative_index(case["p"]))
+    if m.get("panic") is not None:
+        return False
+    k = case_key(case)
+    if k not in CLASS:
+        classify([case])
+    return CLASS.get(k, 99) == m["class"] and case["op"] in m["ops"]
+
+
+def main(run, args):
+    import checklib
+    n = args.cases or (2500 if run.tier == "quick" else 40000)
+    if not args.replay:
+        vlib.build_harness("kind")
+        st = run.rng.getstate()
+        cases = checklib.load_corpus(ID) + gen_cases(run, n)
+        run.rng.setstate(st)
+        classify(cases)
+    cov = lambda cases, outs: {"cases_inside_proved_domains": sum(1 for c in cases if CLASS.get(case_key(c)) == 0),
+                               "finding_class_histogram": {str(k): sum(1 for c in cases if CLASS.get(case_key(c)) == k)
+                                                           for k in sorted(set(CLASS.values()))}}
+    return checklib.standard(run, ID, THEOREMS, IMPORTS, "kind", gen_cases, to_coq, n, nontrivial=nontrivial,
+                             replay=args.replay, known_matcher=known_matcher, extra_cov=cov)
